@@ -15,8 +15,8 @@ the real code skips type `t`, `Affects` is false - i.e. every listed dependency 
 real skip logic, for every kind, proxy variant, namespace class and reason class.
 
 A *change class* is the key's kind, the namespace class of the key, whether the request says the
-key is only the headless-endpoint marker (`HeadlessEndpointUpdate` without `ServiceUpdate`: only
-the endpoints of a headless service moved), and - for ambient `Address` keys - whether the
+key is only the headless-endpoint marker (the only reason of the request is
+`HeadlessEndpointUpdate`: only the endpoints of a headless service moved), and - for ambient `Address` keys - whether the
 changed address is attached to this waypoint (`WaypointsUpdated` references it).
 -/
 namespace IstioModel.C01
@@ -34,7 +34,7 @@ def GType.out : GType → TOut
 structure Change where
   kind     : Kind
   ns       : NsC
-  /-- the request carries `HeadlessEndpointUpdate` and not `ServiceUpdate` -/
+  /-- the request was triggered by headless endpoint updates only -/
   marker   : Bool
   /-- an updated waypoint reference names this proxy -/
   attached : Bool
@@ -179,15 +179,15 @@ def TRow.change (r : TRow) : Change :=
 /-! ## Per-proxy relevance (section P): what concerns a proxy at all -/
 
 /-- Spec of the per-proxy filter on a single changed key: a sidecar is concerned when its current
-    or its previous scope depends on the key (or there is no scope yet), or the key is its own
-    service; a router is not concerned by Sidecar resources, nor by services that neither its
+    or its previous scope depends on the key (or there is no scope yet), or the key is one of its own
+    services (current or previous service targets); a router is not concerned by Sidecar resources, nor by services that neither its
     current nor its previous scope contains; ambient Address keys concern exactly the proxies
     subscribed to the Address type; everything else concerns everybody. Forced pushes concern
     everybody. -/
 def Concerns (r : PRow) : Bool :=
   let forced := (match r.extra with | .forced => true | _ => false)
   let watch := (match r.extra with | .watchAddr => true | _ => false)
-  let own := (match r.extra with | .target => true | _ => false)
+  let own := (match r.extra with | .target | .prevTarget => true | _ => false)
   let selfSvc := (match r.extra with | .selfLocal | .selfPrev => true | _ => false) &&
     (r.kind == .serviceEntry || r.kind == .endpoints)
   let dep (c : ScopeC) : Bool :=
